@@ -11,13 +11,18 @@ Model:
    Result, constructor with missing / duplicate / unknown field, trait adopted without its required
    method / @requires field) as a documented rule table walked over hosts (function, model method, class
    method) x nested blocks (if / elif / else / while / for / both match-arm syntaxes).
+ spec/GenTypes.tla  "a value of the wrong type": the assignability relation Flows (structural equality of
+   types, arity included, nominal for models / enums / newtypes, holes only where a literal leaves its type
+   open) over a universe of atoms and constructors of depth 1 (thorough: 2), for three value forms
+   (function result, canonical literal, literal with holes) at eight flow sites (annotated binding, return,
+   function argument, method argument, constructor field, reassignment, list element, parameter default).
 Binding (B1, in process): the real checker must REJECT every mutant with at least one error whose span
 intersects the rendered range of the offending construct, and must ACCEPT the twin (guards the
 generator: a rejected twin is a tool error, never a violation).
 """
 import json
 
-from lib import common, render
+from lib import common, render, typeflow
 from lib.common import ToolError
 
 
@@ -192,6 +197,11 @@ def run(ctx):
         common.require_tlc_ok(ctx, gm, "GenMut / MutantsAreIllTyped")
         rt = common.tlc(ctx, "Rules", cfg="Rules", workers=4, timeout=600)
         common.require_tlc_ok(ctx, rt, "Rules")
+        gt = [common.tlc(ctx, "GenTypes", cfg="GenTypes_d1", workers=4, timeout=1200, want_tags=("CASE", "SITES"))]
+        if not ctx.quick:
+            gt.append(common.tlc(ctx, "GenTypes", cfg="GenTypes_d2", workers=8, timeout=3000, want_tags=("CASE", "SITES")))
+        for g in gt:
+            common.require_tlc_ok(ctx, g, "GenTypes / Sanity")
     mrows, trows = gm["cases"]["CASE"], rt["cases"]["CASE"]
     if ctx.quick:
         mrows = [r for r in mrows if len(r["kinds"]) <= 1] + rnd.sample([r for r in mrows if len(r["kinds"]) > 1], 350)
@@ -240,6 +250,30 @@ def run(ctx):
         if by_rule.get(rule, 0) == 0:
             raise ToolError(f"rule {rule}: the well-typed twin is rejected in every context (template bug?): "
                             f"{[v for k, v in twin_rejected.items() if k[0] == rule][:2]}")
+    # ---------------------------------------------------------------- the assignability relation (GenTypes) at every flow site
+    sites = sorted(gt[0]["cases"]["SITES"][0])
+    flows = []
+    for g in gt:
+        rows = g["cases"]["CASE"]
+        if ctx.quick:
+            # every ill/well-typed pair at two sites (rotating, seeded): each site still sees every kind of pair
+            off = rnd.randrange(len(sites))
+            for i, r in enumerate(rows):
+                flows += [(r, sites[(i + off) % len(sites)]), (r, sites[(i * 3 + off + 1) % len(sites)])]
+        elif g is gt[0]:
+            flows += [(r, s) for r in rows for s in sites]
+        else:
+            # depth 2: nested constructors; cases where the two types share their outer constructor are the hard ones
+            keep = [r for r in rows if r["a"]["k"] == r["b"]["k"]] + rnd.sample(rows, min(len(rows), 20000))
+            flows += [(r, sites[(i + k) % len(sites)]) for i, r in enumerate(keep) for k in (0, 3)]
+    with ctx.timed("typeflow"):
+        tstats = typeflow.judge(ctx, flows)
+    ctx.stats["typeflow"] = dict(tstats, flows=len(flows), sites=sites)
+    n += len(flows)
+    for r, site in flows:
+        distinct.add(("flow", typeflow.ty_text(r["a"]), r["form"], typeflow.ty_text(r["b"]), site))
+    ctx.sample({"typeflow_case": typeflow.program(flows[len(flows) // 3][0], flows[len(flows) // 3][1])[0][-300:],
+                "accept": flows[len(flows) // 3][0]["accept"]})
     ctx.sample({"mutant": meta[3][2], "offender_span": meta[3][3]})
     ctx.sample({"table_mutant": meta[len(mrows) + 5][2][-400:], "offender_span": meta[len(mrows) + 5][3]})
     ctx.stats["twin_rejected_contexts"] = len(twin_rejected)
@@ -252,7 +286,8 @@ def run(ctx):
         "evaluations": n,
         "distinct_nontrivial": len(distinct),
         "rule": "one mutant per (rule, host, block nesting) emitted by TLC (GenMut: verdict computed by Core's Accept; Rules: the "
-                "documented rule table); judged = cases whose well-typed twin the real checker accepts; distinct by (rule, host, nesting)",
+                "documented rule table); judged = cases whose well-typed twin the real checker accepts; distinct by (rule, host, nesting); "
+                "GenTypes: one program per (value type, value form, declared type, flow site), verdict = the Flows relation",
         "exhaustive": not ctx.quick,
     }, assumptions=["contexts: nesting up to 3 (GenMut) / 2 (table rules) blocks; comprehensions, closures and f-string holes are not yet generated",
                     "span test: a diagnostic must intersect the source range of the offending statement / expression"])
